@@ -125,7 +125,8 @@ def _is_no_proxy_host(hostname: str, no_proxy: Optional[list]) -> bool:
         )
     for domain in [domain for domain in no_proxy if domain.startswith(".")]:
         endDomain = domain.lstrip('.')
-        if hostname.endswith(endDomain):
+        # the domain itself or a subdomain of it, on a label boundary
+        if hostname == endDomain or hostname.endswith("." + endDomain):
             return True
     return False
 
